@@ -20,7 +20,7 @@ mkdir -p Extract/out
 coq_makefile -f _CoqProject -o Makefile >/dev/null
 # -k: a file that does not build (work in progress for a property not yet claimed) must not
 # stop the rest; what the claimed checks need is verified right below
-make -k -j"$(nproc)" >/dev/null 2>coq_build.err || { echo "warning: some Coq files did not build:"; grep -E '^File|Error' coq_build.err | head -20; }
+timeout 3000 make -k -j"$(nproc)" COQC="timeout 1500 coqc" >/dev/null 2>coq_build.err || { echo "warning: some Coq files did not build:"; grep -E '^File|Error' coq_build.err | head -20; }
 cd ..
 python3 - <<'PY'
 import json, os, sys
